@@ -195,7 +195,7 @@ pub fn run(tier: Tier) -> i32 {
      CBOR data-model universe (integers at all head-width boundaries, strings, all simple values classes, floats of all widths incl. \
      ±0/inf/NaN, tags, nested arrays/maps incl. duplicate and equivalent keys) every encoding with <=2 deviations from preferred \
      (non-minimal head, indefinite length, chunking into <=3 chunks, wider float), every proper prefix and every single-byte \
-     substitution (24-byte alphabet, every position) of each encoding with <= {} deviations; byte strings deduplicated per value. Oracle: independent RFC 8949 Appendix-C style decoder; Ok/Err equality and \
+     substitution (24-byte alphabet, every position) of each encoding with <= {} deviations; byte strings deduplicated per value. Space C: indefinite-length text and byte strings cut into 1-3 chunks at every byte position (also inside multi-byte characters), both chunk-head widths, alone and nested in array / map / indefinite map / tag. Space D: strings, arrays and maps with 0,1,23,24,25,255,256,257,4095,4096,4097 (thorough: ..65537) elements under every admissible head width and indefinite length, complete, one element short, one element over, and followed by a sibling. Oracle: independent RFC 8949 Appendix-C style decoder; Ok/Err equality and \
      data-model value equality (NaN payload ignored). transition = append one byte (A) / apply one deviation, truncation or substitution (B). \
      non-trivial = distinct inputs that begin with a well-formed item (the reference returns a value).",
     value_universe(tier).len(),
@@ -249,8 +249,14 @@ pub fn run(tier: Tier) -> i32 {
   let accs = par_sweep(uni.len(), 1, Acc::default, |i, a: &mut Acc| {
     let v = &uni[i];
     let encs = encodings(v, 2);
-    // distinct byte strings derived from this value (BTreeSet: deterministic order)
-    let mut set: std::collections::BTreeSet<Vec<u8>> = Default::default();
+    // distinct byte strings derived from this value: deduplicated by a 64-bit hash (the byte
+    // strings themselves are not kept - the thorough tier ran out of memory keeping them)
+    let mut seen: std::collections::HashSet<u64> = Default::default();
+    let mut visit = |a: &mut Acc, b: &[u8]| {
+      if seen.insert(statelist::key(&[&hex(b)])) {
+        note(a, b);
+      }
+    };
     for (e, d) in &encs {
       if hostile(e) {
         continue;
@@ -263,16 +269,16 @@ pub fn run(tier: Tier) -> i32 {
         }
         Err(x) => panic!("reference codec rejects own encoding {} {:?}", hex(e), x),
       }
-      set.insert(e.clone());
+      visit(a, e);
       // a trailing byte is tolerated ("begins with")
       let mut t = e.clone();
       t.push(0xff);
-      set.insert(t);
+      visit(a, &t);
       if *d > mutdev || e.len() > 300 {
         continue;
       }
       for k in 0..e.len() {
-        set.insert(e[..k].to_vec());
+        visit(a, &e[..k]);
       }
       for k in 0..e.len().min(40) {
         for s in SUBST {
@@ -280,16 +286,13 @@ pub fn run(tier: Tier) -> i32 {
             let mut m = e.clone();
             m[k] = s;
             if !hostile(&m) {
-              set.insert(m);
+              visit(a, &m);
             }
           }
         }
       }
     }
     a.edges += encs.len() as u64;
-    for b in &set {
-      note(a, b);
-    }
   });
   let mut total_b = 0;
   for a in accs {
@@ -301,9 +304,122 @@ pub fn run(tier: Tier) -> i32 {
     }
   }
   run.set("spaceB_states", json!(total_b));
+  // ---- space C: indefinite-length strings chunked at EVERY byte position (also inside a
+  // multi-byte character: each chunk of a text string must be valid UTF-8 on its own), with
+  // every chunk-head width, alone and nested in an array / as a map value / under a tag
+  let mut cases: Vec<Vec<u8>> = vec![];
+  for (mt, payload) in [(3u8, "a\u{e9}\u{20ac}\u{1F600}".as_bytes().to_vec()), (3, "\u{e9}".as_bytes().to_vec()), (2, vec![0xc3, 0xa9, 0xff, 0x00])] {
+    let n = payload.len();
+    // all ways to cut the payload into 1..=3 chunks
+    let mut cuts: Vec<Vec<usize>> = vec![vec![]];
+    for i in 1..n {
+      cuts.push(vec![i]);
+      for j in i + 1..n {
+        cuts.push(vec![i, j]);
+      }
+    }
+    for c in cuts {
+      for wide in [false, true] {
+        let mut b = vec![(mt << 5) | 31];
+        let mut prev = 0;
+        for end in c.iter().copied().chain([n]) {
+          let len = end - prev;
+          if wide {
+            b.push((mt << 5) | 24);
+            b.push(len as u8);
+          } else {
+            b.push((mt << 5) | len as u8);
+          }
+          b.extend_from_slice(&payload[prev..end]);
+          prev = end;
+        }
+        b.push(0xff);
+        cases.push(b.clone());
+        let mut arr = vec![0x82, 0x01];
+        arr.extend_from_slice(&b);
+        cases.push(arr);
+        let mut map = vec![0xa1, 0x01];
+        map.extend_from_slice(&b);
+        cases.push(map);
+        let mut nested = vec![0x81, 0xbf, 0x61, 0x6b];
+        nested.extend_from_slice(&b);
+        nested.push(0xff);
+        cases.push(nested);
+        let mut tag = vec![0xc1];
+        tag.extend_from_slice(&b);
+        cases.push(tag);
+      }
+    }
+  }
+  // ---- space D: containers and strings at the element counts where head width or internal
+  // buffering changes (23/24, 255/256, 4095/4096/4097, 65535/65536), definite with every head
+  // width and indefinite, complete, one element short, and followed by a sibling
+  let counts: Vec<usize> = tier.pick(vec![0, 1, 23, 24, 25, 255, 256, 257, 4095, 4096, 4097], vec![0, 1, 23, 24, 25, 255, 256, 257, 4095, 4096, 4097, 8192, 65535, 65536, 65537]);
+  fn head(mt: u8, n: u64, width: u8) -> Option<Vec<u8>> {
+    Some(match width {
+      0 if n < 24 => vec![(mt << 5) | n as u8],
+      1 if n < 256 => vec![(mt << 5) | 24, n as u8],
+      2 if n < 65536 => vec![(mt << 5) | 25, (n >> 8) as u8, n as u8],
+      4 if n < (1 << 32) => {
+        let mut v = vec![(mt << 5) | 26];
+        v.extend_from_slice(&(n as u32).to_be_bytes());
+        v
+      }
+      8 => {
+        let mut v = vec![(mt << 5) | 27];
+        v.extend_from_slice(&n.to_be_bytes());
+        v
+      }
+      _ => return None,
+    })
+  }
+  for &n in &counts {
+    for mt in [2u8, 3, 4, 5] {
+      let unit: &[u8] = match mt {
+        2 => &[0x07],
+        3 => b"x",
+        4 => &[0x01],
+        _ => &[0x01, 0x02],
+      };
+      for width in [0u8, 1, 2, 4, 8] {
+        let Some(h) = head(mt, n as u64, width) else { continue };
+        for present in [n, n.saturating_sub(1), n + 1] {
+          let mut b = h.clone();
+          for _ in 0..present {
+            b.extend_from_slice(unit);
+          }
+          cases.push(b.clone());
+          // as first element of an array followed by a sibling text "x"
+          let mut arr = vec![0x82];
+          arr.extend_from_slice(&b);
+          arr.extend_from_slice(&[0x61, 0x78]);
+          cases.push(arr);
+        }
+      }
+      if mt >= 4 {
+        let mut b = vec![(mt << 5) | 31];
+        for _ in 0..n {
+          b.extend_from_slice(unit);
+        }
+        b.push(0xff);
+        cases.push(b);
+      }
+    }
+  }
+  let accs = par_sweep(cases.len(), 8, Acc::default, |i, a: &mut Acc| note(a, &cases[i]));
+  let mut total_c = 0;
+  for a in accs {
+    total_c += a.n;
+    run.nontrivial += a.ok;
+    run.absorb(a.v);
+    for (k, c) in a.err_kinds {
+      *errk.entry(k).or_insert(0u64) += c;
+    }
+  }
+  run.set("spaceCD_states", json!(total_c));
   run.set("reference_error_classes_seen", json!(errk));
-  run.states = total_a + total_b;
-  run.transitions = total_a + total_b; // every state is reached by exactly one generator edge from its predecessor
+  run.states = total_a + total_b + total_c;
+  run.transitions = total_a + total_b + total_c; // every state is reached by exactly one generator edge from its predecessor
   run.traces = run.states;
   run.evaluations = run.states;
   for s in ["1903e8", "9f0102ff", "5f4101420203ff", "f97e00", "c1fb41d452d9ec200000", "a201020304", "f8ff", "3bffffffffffffffff"] {
